@@ -12,7 +12,7 @@
      amp_ok s                   every ampersand in s begins one of &amp; &lt; &gt; &quot; &#x27; &#039;
      markup_free s              s contains none of < > & and no quote
      isp                        the Unicode table behind str.isprintable: arbitrary *)
-From Verif Require Import lib.Base lib.Str lib.Html lib.PyRepr model.ErrPage proofs.C20_escape proofs.C20_html proofs.C20_json.
+From Verif Require Import lib.Base lib.Str lib.Html lib.PyRepr model.ErrPage proofs.C20_escape proofs.C20_html proofs.C20_json proofs.C20_pins.
 
 (* For every error object (whatever its status line and body), every url string
    and every printability table: with debug off the page is
@@ -42,16 +42,54 @@ Theorem C20_html_markup_is_the_templates :
 Proof. exact page_markup_is_templates. Qed.
 Print Assumptions C20_html_markup_is_the_templates.
 
-(* Instances: every error the framework creates itself (404, 405, 400 undecodable
-   path, every entry of DefaultConfig.errors_map as read from the source, 500
-   handler crash, 500 failing iterator, 500 too many iterations) has a plain
-   status line and a plain body, so the previous theorem applies to it ... *)
+(* Every literal text of the model that stands for a text of the source equals
+   what the translator read from /repo on this build: the list of the framework's
+   own HTTPError bodies (ombott.py: _handle, _cast, handler; RadiRouter.resolve),
+   the unsupported-type prefix, the two format strings, the status line and the
+   header of the last-resort page, the keys of the JSON body.  (Status lines,
+   JSON content type, last-resort status line, error.html, the escape chain and
+   errors_map are used from Gen directly.)  An added, removed or reworded
+   framework error breaks this obligation. *)
+Theorem C20_texts_pinned :
+  Gen.framework_errors = modelled_framework_errors
+  /\ Gen.unsupported_type_error = (500%Z, body_500_type_prefix)
+  /\ Gen.critical_page_fmt = crit_head ++ pct_s ++ crit_head_end
+  /\ Gen.critical_debug_fmt = crit_err_open ++ pct_s ++ crit_tb_open ++ pct_s ++ crit_close
+  /\ Gen.critical_headers = [(h_content_type, crit_ctype)]
+  /\ Gen.json_error_keys = [k_body; f_exception; f_traceback].
+Proof. exact texts_pinned_lemma. Qed.
+Print Assumptions C20_texts_pinned.
+
+(* Instances, over the translator's own lists (so an error added to the source is
+   covered without touching the model): every HTTPError the framework creates
+   itself -- Gen.framework_errors and DefaultConfig.errors_map -- has a plain
+   body and a status code whose status line is plain ... *)
 Theorem C20_framework_errors_are_plain :
+  forall (w : str) (code : Z) (body : str),
+    In (w, (code, body)) Gen.framework_errors \/ In (w, (code, body)) Gen.errors_map ->
+    markup_free body = true
+    /\ exists line, assocZ code Gen.status_lines = Some line /\ markup_free line = true.
+Proof. exact framework_errors_plain_lemma. Qed.
+Print Assumptions C20_framework_errors_are_plain.
+
+(* ... every error object the model builds (other than the unsupported-type one)
+   carries a body and status line from those lists ... *)
+Theorem C20_modelled_errors_come_from_the_source :
+  forall (k : kind) (x : exc) (tb : option str) (e : err),
+    not_type_kind k = true -> err_of_kind k x tb = Some e ->
+    exists w code,
+      (In (w, (code, e_body e)) Gen.framework_errors \/ In (w, (code, e_body e)) Gen.errors_map)
+      /\ assocZ code Gen.status_lines = Some (e_status e).
+Proof. exact modelled_errors_from_source. Qed.
+Print Assumptions C20_modelled_errors_come_from_the_source.
+
+(* ... hence C20_html_markup_is_the_templates applies to each of them. *)
+Theorem C20_modelled_errors_are_plain :
   forall (k : kind) (x : exc) (tb : option str) (e : err),
     not_type_kind k = true -> err_of_kind k x tb = Some e ->
     markup_free (e_status e) = true /\ markup_free (e_body e) = true.
 Proof. exact framework_errors_plain. Qed.
-Print Assumptions C20_framework_errors_are_plain.
+Print Assumptions C20_modelled_errors_are_plain.
 
 (* ... with one exception: the body of the "Unsupported response type" error
    shows str(type(x)), which contains angle brackets.  The text is chosen by the
